@@ -25,6 +25,10 @@
 // apostrophes, backslashes, delimiter look-alikes or dashes. Part E (names.go, many names): templates of
 // N plain print tags with N distinct names for N up to 8000 (thorough 20000), one after the other in one
 // process, then everyday templates with new names padded across the thresholds.
+//
+// Part F (routes.go, route at large sizes): padded templates of part A are also saved in compiled form and
+// read back on a fresh engine (three ways), at every total length around every power of two from 1 KiB
+// to 256 KiB, 20 KiB, 100 KiB and 300 000: padded = unpadded plus the visible padding, on every route.
 package main
 
 import (
@@ -223,6 +227,16 @@ func sizes(thorough bool) []int {
 
 // padCase: one base variant, one choice of insertion points, one padding kind, every total length.
 func padCase(b *base, texts []string, mask uint, pts []int, k int, thorough bool) *vlib.Outcome {
+	return padCaseVia(nil, b, texts, mask, pts, k, sizes(thorough), nil)
+}
+
+// padCaseVia: the same, with the list of total lengths given and every rendering (base, marker, padded)
+// taken by the route rt (nil: the source is registered and rendered directly). See routes.go (part F).
+func padCaseVia(t *vlib.T, b *base, texts []string, mask uint, pts []int, k int, totals []int, rt *route) *vlib.Outcome {
+	render, via, prefix := render, "", "pad/"
+	if rt != nil {
+		render, via, prefix = rt.run, " [every rendering of this case, the unpadded ones too, taken by the route: "+rt.what+"]", "route/"+rt.name+"/"
+	}
 	src, _ := b.pieces(texts, mask)
 	join := func(ins []string) string {
 		var sb strings.Builder
@@ -248,8 +262,11 @@ func padCase(b *base, texts []string, mask uint, pts []int, k int, thorough bool
 	rMark := render(join(marks))
 	o := &vlib.Outcome{Counters: map[string]int64{"renders": 2}}
 	fail := func(msg string, padded, got, want string) *vlib.Outcome {
-		o.Violation = fmt.Sprintf("%s\n base %q -> %.120q\n padded source (%d bytes) %s\n got  %s\n want %s", msg, baseSrc, rBase, len(padded), abbreviate(padded), abbreviate(got), abbreviate(want))
+		o.Violation = fmt.Sprintf("%s%s\n base %q -> %.120q\n padded source (%d bytes) %s\n got  %s\n want %s", msg, via, baseSrc, rBase, len(padded), abbreviate(padded), abbreviate(got), abbreviate(want))
 		o.Detail = map[string]interface{}{"base": baseSrc, "padded_len": len(padded), "points": pts, "kind": kindNames[k]}
+		if rt != nil {
+			o.Detail.(map[string]interface{})["route"] = rt.name
+		}
 		return o
 	}
 	// The base rendering is only a reference here: whether it is RIGHT is decided by C13 (dashes) and the
@@ -266,7 +283,10 @@ func padCase(b *base, texts []string, mask uint, pts []int, k int, thorough bool
 	}
 	o.Counters["base_"+kind(rBase)]++
 	classes := map[string]bool{}
-	for _, total := range sizes(thorough) {
+	for _, total := range totals {
+		if t != nil {
+			t.Progress()
+		}
 		n := total - len(baseSrc)
 		ins := make([]string, len(pts))
 		shown := make([]string, len(pts))
@@ -305,7 +325,10 @@ func padCase(b *base, texts []string, mask uint, pts []int, k int, thorough bool
 			cl += "-" + c
 		}
 	}
-	o.Class = "pad/" + kindNames[k] + "/" + cl
+	o.Class = prefix + kindNames[k] + "/" + cl
+	if rt != nil && rt.compiled {
+		o.Nontrivial = true // the template goes through the compiled writer and reader at every length
+	}
 	return o
 }
 
@@ -515,12 +538,16 @@ func main() {
 			"repeated k times for every k = 1..700 (thorough 1..3000), alone and followed by 997 or 4099 (thorough: 997 up to k = 700, 4099 up to k = 1500, 20011 up to k = 2000) bytes of literal text, and for every k = 1..300 (thorough 1..500) behind each of 6 (thorough 11) leads of plain print tags and text that shift the token positions by 3..9 (3..14); " +
 			"every rendering starts from empty pools; the output must be the lead's output, k copies of the unit's own output as a whole template, and the padding; one case = 50 consecutive k; non-trivial = the case contains a k >= 2. " +
 			"E: templates above 4096 bytes of N plain print tags with N distinct names, N = 100, 1000, 4000, 4100, 5000, 8000 (thorough also 16000, 20000; stages above 300 000 bytes left out), rendered one after the other in one process, for each of 6 name shapes (short, with underscores, mixed case, 63 / 64 / 65 bytes) x 3 tag styles ({{ n }}, {{n}}, {{- n -}}) x {same names in every stage, new names in every stage}; every tag must print the value of its own variable and the same tags cut into templates below 4096 bytes must print the same; " +
-			"then 5 everyday templates with names new to the process, bare and padded to every total of 4094..4098 (thorough 4090..4102), 1025, 20481, 65537 bytes by text in front, text behind and a comment between two constructs; one case = one such history",
+			"then 5 everyday templates with names new to the process, bare and padded to every total of 4094..4098 (thorough 4090..4102), 1025, 20481, 65537 bytes by text in front, text behind and a comment between two constructs; one case = one such history. " +
+			"F: 10 templates of part A's corpus (print, ifelse, for, nested, extends, include, macroargs, verbatim, comment, cmtinfor; thorough: all 51 tag and comment-bearing bases, the two deliberately bad ones left out) x {no dash, all dashes} x {padding in front, at the end, at every admissible point} x padding kind (text, one comment, mixed; thorough all 5) x route " +
+			"{direct; Template.SaveCompiled -> LoadFromCompiledData; CompileTemplate + SerializeCompiledTemplate -> DeserializeCompiledTemplate + RegisterCompiledTemplate; CompiledLoader.SaveCompiled -> a fresh engine with a CompiledLoader}, the loading side always a fresh engine, " +
+			"x every total length c-1, c, c+1 for c = every power of two from 1 KiB to 256 KiB, 20 KiB, 100 KiB, and 300 000: the padded rendering equals the unpadded rendering taken by the same route plus the visible padding; non-trivial = a compiled route, or (direct) as in A",
 		Assumptions: []string{
 			"padding is inserted at segment boundaries only, never inside a verbatim body and never between a dashed delimiter and the whitespace it trims (nor between such a delimiter and that whitespace across comments)",
 			"the expected output of a padded template is derived from the same implementation's rendering of the unpadded template (below every threshold) with a 3-byte marker at the insertion points; the corpus model pins the unpadded rendering",
 			"for sources that fail, only the failure class (parse error / render error / panic) is compared, not the message",
 			"templates up to 300 000 bytes; larger size classes are not explored",
+			"part F: the expected output on a route is derived from the same route's rendering of the unpadded template with the marker (below every threshold); whether a compiled template renders like its source at small sizes is not asked (C16)",
 			"part E: the expected output of a plain print tag is the value its name has in the context (string values without markup); the verdict of a case does not depend on what the worker process rendered before it",
 			"part D: the units begin and end with a non-whitespace byte or a delimiter, so no dash reaches from one copy into the next, the lead or the padding; the pools of the engine are emptied before every rendering by two forced garbage collections (sync.Pool semantics of the Go runtime) and the case runs on one processor",
 		},
@@ -542,6 +569,10 @@ func main() {
 			}
 			if on("A") {
 				runPad(t)
+			}
+			// F directly after A: the same family of cases on other routes and other lengths
+			if on("F") {
+				runRoutes(t)
 			}
 			if on("C") {
 				runTagSeq(t, 5)
@@ -565,6 +596,7 @@ func main() {
 			cov["comment_templates"] = len(commentBases)
 			cov["tag_sequence_pieces"] = len(tagPieces)
 			repCoverage(tier, cov)
+			routesCoverage(tier, cov)
 			namesCoverage(tier, cov)
 		},
 	})
